@@ -3,6 +3,8 @@
 
 from jax2onnx._compat.jax import JaxprEqn
 import jax
+import numpy as np
+import onnx_ir as ir
 
 from jax2onnx.converter.typing_support import LoweringContextProtocol
 from jax2onnx.plugins._post_check_onnx_graph import expect_graph as EG
@@ -46,7 +48,54 @@ class RoundPlugin(PrimitiveLeafPlugin):
         if getattr(out_spec, "producer", None) is not None:
             desired_name = ctx.fresh_name("round_out")
 
-        result = ctx.builder.Round(x_val, _outputs=[desired_name])
+        method = eqn.params.get(
+            "rounding_method", jax.lax.RoundingMethod.AWAY_FROM_ZERO
+        )
+        if int(method) == int(jax.lax.RoundingMethod.TO_NEAREST_EVEN):
+            # ONNX Round rounds halfway cases to the nearest even integer.
+            result = ctx.builder.Round(x_val, _outputs=[desired_name])
+            result.type = out_spec.type
+            result.shape = out_spec.shape
+            ctx.bind_value_for_var(out_var, result)
+            return
+
+        # AWAY_FROM_ZERO (the lax.round default): ONNX Round is right except on exact
+        # halfway cases |x| = floor(|x|) + 0.5, where the result is sign(x) * (floor(|x|) + 1).
+        # |x| - floor(|x|) is exact in floating point, so the halfway test is exact as well.
+        np_dtype = np.dtype(getattr(x_var.aval, "dtype", np.float32))
+        if np_dtype == np.dtype(np.float64) and not ctx.builder.enable_double_precision:
+            np_dtype = np.dtype(np.float32)
+
+        def _stamp(value):
+            value.type = out_spec.type
+            value.shape = out_spec.shape
+            return value
+
+        half = ctx.bind_const_for_var(object(), np.asarray(0.5, dtype=np_dtype))
+        one = ctx.bind_const_for_var(object(), np.asarray(1.0, dtype=np_dtype))
+        nearest = _stamp(
+            ctx.builder.Round(x_val, _outputs=[ctx.fresh_name("round_even")])
+        )
+        mag = _stamp(ctx.builder.Abs(x_val, _outputs=[ctx.fresh_name("round_abs")]))
+        mag_floor = _stamp(
+            ctx.builder.Floor(mag, _outputs=[ctx.fresh_name("round_floor")])
+        )
+        frac = _stamp(
+            ctx.builder.Sub(mag, mag_floor, _outputs=[ctx.fresh_name("round_frac")])
+        )
+        is_tie = ctx.builder.Equal(
+            frac, half, _outputs=[ctx.fresh_name("round_is_tie")]
+        )
+        is_tie.type = ir.TensorType(ir.DataType.BOOL)
+        is_tie.shape = out_spec.shape
+        mag_up = _stamp(
+            ctx.builder.Add(mag_floor, one, _outputs=[ctx.fresh_name("round_floor_p1")])
+        )
+        sign = _stamp(ctx.builder.Sign(x_val, _outputs=[ctx.fresh_name("round_sign")]))
+        away = _stamp(
+            ctx.builder.Mul(sign, mag_up, _outputs=[ctx.fresh_name("round_tie_away")])
+        )
+        result = ctx.builder.Where(is_tie, away, nearest, _outputs=[desired_name])
         result.type = out_spec.type
         result.shape = out_spec.shape
         ctx.bind_value_for_var(out_var, result)
